@@ -149,10 +149,14 @@ Definition item_wf (i : dq_item) : bool :=
   end.
 
 (* a break as it is written: trailing blank padding, the backslash of an escaped break, the break, empty lines
-   (each blank only), the indentation of the continuation line (blank only) *)
-Record brk_layout := { bl_escaped : bool; bl_pad : list N; bl_empties : list (list N); bl_indent : list N }.
+   (each blank only), the indentation of the continuation line (blank only).  5.4: a break is LF, CR or CR LF; all the
+   breaks of one layout are written the same way (a CR directly followed by a LF would read as ONE break) *)
+Inductive nl_kind := NlLF | NlCR | NlCRLF.
+Definition nl_src (k : nl_kind) : list N := match k with NlLF => [10] | NlCR => [13] | NlCRLF => [13; 10] end.
+Record brk_layout := { bl_escaped : bool; bl_pad : list N; bl_empties : list (list N); bl_indent : list N; bl_nl : nl_kind }.
 Definition render_brk (b : brk_layout) : list N :=
-  bl_pad b ++ (if bl_escaped b then [92] else []) ++ [10] ++ flat_map (fun e => e ++ [10]) (bl_empties b) ++ bl_indent b.
+  bl_pad b ++ (if bl_escaped b then [92] else []) ++ nl_src (bl_nl b)
+  ++ flat_map (fun e => e ++ nl_src (bl_nl b)) (bl_empties b) ++ bl_indent b.
 Definition brk_of (b : brk_layout) : line_break :=
   if bl_escaped b then Escaped (length (bl_empties b)) else Folded (length (bl_empties b)).
 Fixpoint leading_spaces (l : list N) : nat := match l with 32 :: r => S (leading_spaces r) | _ => O end.
@@ -177,32 +181,36 @@ Definition marker_at_col0 (indent src : list N) : bool :=
 Definition last_is_lit_blank (seg : list dq_item) : bool := match rev seg with i :: _ => is_lit_blank i | [] => false end.
 Definition first_is_lit_blank (seg : list dq_item) : bool := match seg with i :: _ => is_lit_blank i | [] => false end.
 
-(* the segments after the first: [prev] is the segment before the break *)
-Fixpoint dq_rest_wf (n : nat) (prev : list dq_item) (rest : list (brk_layout * list dq_item)) : bool :=
+(* single-quoted: literal characters only, a quote written twice, no escaped breaks *)
+Definition sq_item_wf (i : dq_item) : bool :=
+  match i with ILit c => ((32 <? c) && (c <=? 1114111)) || is_sp c | _ => false end.
+Definition sq_src (i : dq_item) : list N :=
+  match i with ILit c => if c =? 39 then [39; 39] else [c] | _ => item_src i end.
+
+(* the segments after the first: [prev] is the segment before the break; [iwf] says which items the style allows,
+   [src] how an item is written *)
+Fixpoint seg_rest_wf (iwf : dq_item -> bool) (src : dq_item -> list N) (n : nat) (prev : list dq_item)
+         (rest : list (brk_layout * list dq_item)) : bool :=
   match rest with
   | [] => true
   | (b, seg) :: r =>
-      brk_wf n b && forallb item_wf seg
+      brk_wf n b && forallb iwf seg
       && (bl_escaped b || negb (last_is_lit_blank prev))     (* blanks before a folded break would be dropped *)
       && negb (first_is_lit_blank seg)                       (* blanks after a break are dropped *)
-      && negb (marker_at_col0 (bl_indent b) (flat_map item_src seg))
+      && negb (marker_at_col0 (bl_indent b) (flat_map src seg))
       && (match r with [] => true | _ => match seg with [] => false | _ => true end end)   (* inner segments are not empty *)
-      && dq_rest_wf n seg r
+      && seg_rest_wf iwf src n seg r
   end.
 Definition dq_layout_wf (n : nat) (first : list dq_item) (rest : list (brk_layout * list dq_item)) : bool :=
-  forallb item_wf first && dq_rest_wf n first rest.
+  forallb item_wf first && seg_rest_wf item_wf item_src n first rest.
 Definition dq_render (first : list dq_item) (rest : list (brk_layout * list dq_item)) : list N :=
   flat_map item_src first ++ flat_map (fun p => render_brk (fst p) ++ flat_map item_src (snd p)) rest.
 Definition dq_text (first : list dq_item) (rest : list (brk_layout * list dq_item)) : list N :=
   fold_lines (map item_val first) (map (fun p => (brk_of (fst p), map item_val (snd p))) rest).
 
-(* single-quoted: the same with literal characters only, a quote written twice, no escaped breaks *)
-Definition sq_item_wf (i : dq_item) : bool :=
-  match i with ILit c => ((32 <? c) && (c <=? 1114111)) || is_sp c | _ => false end.
-Definition sq_src (i : dq_item) : list N := match i with ILit 39 => [39; 39] | _ => item_src i end.
 Definition sq_layout_wf (n : nat) (first : list dq_item) (rest : list (brk_layout * list dq_item)) : bool :=
-  dq_layout_wf n first rest && forallb sq_item_wf first
-  && forallb (fun p => negb (bl_escaped (fst p)) && forallb sq_item_wf (snd p)) rest.
+  forallb sq_item_wf first && seg_rest_wf sq_item_wf sq_src n first rest
+  && forallb (fun p => negb (bl_escaped (fst p))) rest.
 Definition sq_render (first : list dq_item) (rest : list (brk_layout * list dq_item)) : list N :=
   flat_map sq_src first ++ flat_map (fun p => render_brk (fst p) ++ flat_map sq_src (snd p)) rest.
 
